@@ -3,7 +3,9 @@
 package main
 
 import (
+	"fmt"
 	"path/filepath"
+	"runtime/debug"
 	"sync"
 
 	"github.com/oauth2-proxy/oauth2-proxy/v7/pkg/watcher"
@@ -13,6 +15,7 @@ import (
 // (build tag verif): it records (file, action); the driver delivers "file changed" by calling the
 // REAL reload closure (loadHTPasswdFile, LoadAuthenticatedEmailsFile+onUpdate).
 type vfWatcher struct {
+	panics  []string
 	mu      sync.Mutex
 	entries []*vfWatchEntry
 }
@@ -50,7 +53,29 @@ func (v *vfWatcher) Fire(file string) int {
 	}
 	v.mu.Unlock()
 	for _, a := range acts {
-		a()
+		func() {
+			// the action is the repository's reload closure; on the real watcher goroutine a panic in it ends the process
+			defer func() {
+				if p := recover(); p != nil {
+					if _, stop := p.(vfStop); stop {
+						panic(p)
+					}
+					v.mu.Lock()
+					v.panics = append(v.panics, fmt.Sprintf("%v at %s", p, vfPanicSite(string(debug.Stack()))))
+					v.mu.Unlock()
+				}
+			}()
+			a()
+		}()
 	}
 	return len(acts)
+}
+
+// Panics returns (and forgets) the panics raised by reload actions since the last call.
+func (v *vfWatcher) Panics() []string {
+	v.mu.Lock()
+	defer v.mu.Unlock()
+	p := v.panics
+	v.panics = nil
+	return p
 }
